@@ -485,11 +485,12 @@ Lemma params_corrected_ok bs al C :
   PoolLayout.check_params C (Gen_MemPoolConst.CorrectBlockSize bs al C) al = true.
 Proof.
   intros HC Hal Hbs. change (2 ^ 48) with 281474976710656 in Hbs.
-  assert (forall B, 0 < B <= 2 ^ 49 -> negb (B >? 18446744073709551615 / C) = true) as Hmax.
+  assert (forall B, 0 < B <= 2 ^ 49 -> negb (B >? (18446744073709551615 - PoolLayout.max_overhead B al) / C) = true) as Hmax.
   { intros B HB. change (2 ^ 49) with 562949953421312 in HB. rewrite Z.gtb_ltb.
-    assert (2 ^ 57 <= 18446744073709551615 / C) by (apply Z.div_le_lower_bound; [lia|]; change (2 ^ 57) with 144115188075855872; lia).
+    destruct (addend_facts al Hal) as (Had & _ & _). unfold PoolLayout.max_overhead. rewrite addend_indep.
+    assert (2 ^ 57 <= (18446744073709551615 - (addend al + 3 * al + 2 + 2 * 8 + 2)) / C) by (apply Z.div_le_lower_bound; [lia|]; change (2 ^ 57) with 144115188075855872; lia).
     change (2 ^ 57) with 144115188075855872 in *.
-    destruct (Z.ltb_spec (18446744073709551615 / C) B); [lia|reflexivity]. }
+    destruct (Z.ltb_spec ((18446744073709551615 - (addend al + 3 * al + 2 + 2 * 8 + 2)) / C) B); [lia|reflexivity]. }
   unfold PoolLayout.check_params, Gen_MemPoolConst.CheckBlockCount, Gen_MemPoolConst.CheckBlockAlignment, Gen_MemPoolConst.CorrectBlockSize.
   assert ((0 <? C) && (C <? 128) = true) as -> by (apply andb_true_intro; split; [apply Z.ltb_lt|apply Z.ltb_lt]; lia).
   assert ((0 <? al) && (al <=? 1024) = true) as -> by (apply andb_true_intro; split; [apply Z.ltb_lt|apply Z.leb_le]; lia).
@@ -497,8 +498,8 @@ Proof.
   destruct (Z.eqb_spec C 1) as [E1|E1].
   - rewrite !orb_true_l. rewrite !andb_true_r.
     rewrite Z.gtb_ltb. destruct (Z.ltb_spec 0 bs).
-    + assert (0 <? bs = true) as -> by (apply Z.ltb_lt; lia). simpl. apply Hmax. change (2 ^ 49) with 562949953421312. lia.
-    + simpl. apply Hmax. change (2 ^ 49) with 562949953421312. lia.
+    + assert (0 <? bs = true) as -> by (apply Z.ltb_lt; lia). cbv iota. apply Hmax. change (2 ^ 49) with 562949953421312. lia.
+    + assert (0 <? bs = false) as E0 by (apply Z.ltb_ge; lia). rewrite ?E0. cbv iota. apply Hmax. change (2 ^ 49) with 562949953421312. lia.
   - rewrite !orb_false_l. destruct (Z.leb_spec bs al).
     + rewrite wrapU_small by (rewrite two64; lia).
       assert (0 <? 2 * al = true) as -> by (apply Z.ltb_lt; lia).
@@ -666,3 +667,58 @@ Proof.
   rewrite dispatch_generated. unfold PoolLayout.dealloc1. change (1 >? 1) with false. cbv iota.
   destruct (Gen_MemPool.pvGetAlignmentAddend B A =? 0); [left|right]; split; reflexivity.
 Qed.
+
+(* ---------- after fix e4ec548: every block size accepted by pvCheckParams has a buffer size that does NOT wrap ---------- *)
+Lemma check_params_facts C B A : PoolLayout.check_params C B A = true ->
+  1 <= C <= 127 /\ 1 <= A <= 1024 /\ 0 < B /\ C * B + PoolLayout.max_overhead B A <= 18446744073709551615.
+Proof.
+  unfold PoolLayout.check_params, Gen_MemPoolConst.CheckBlockCount, Gen_MemPoolConst.CheckBlockAlignment.
+  intros H. repeat (apply andb_prop in H; destruct H as [H ?]).
+  repeat match goal with H : (_ <=? _) = true |- _ => apply Z.leb_le in H | H : (_ <? _) = true |- _ => apply Z.ltb_lt in H end.
+  match goal with H : negb _ = true |- _ => apply negb_true_iff in H; rewrite Z.gtb_ltb in H; apply Z.ltb_ge in H; rename H into Hle end.
+  assert (1 <= A <= 1024) as HA by lia. destruct (addend_facts A HA) as (Had & _ & _).
+  assert (0 <= PoolLayout.max_overhead B A <= 5000) as Ho by (unfold PoolLayout.max_overhead; rewrite addend_indep; lia).
+  repeat split; try lia.
+  pose proof (Z.mul_div_le (18446744073709551615 - PoolLayout.max_overhead B A) C ltac:(lia)) as Hd.
+  assert (C * B <= C * ((18446744073709551615 - PoolLayout.max_overhead B A) / C)) as Hm by (apply Z.mul_le_mono_nonneg_l; lia).
+  lia.
+Qed.
+
+Theorem check_params_no_wrap C B A : PoolLayout.check_params C B A = true ->
+  Gen_MemPool.pvGetBufferSize C B A =
+    C * B + addend A + (2 + (B / A) mod 2) * A + (if 3 <=? A then 0 else 2) + 18 /\
+  Gen_MemPool.pvGetBufferSize C B A < 2 ^ 64 /\ C * B <= Gen_MemPool.pvGetBufferSize C B A /\
+  Gen_MemPool.pvGetBufferSize1 B A = B + addend A + 2 /\ Gen_MemPool.pvGetBufferSize1 B A < 2 ^ 64.
+Proof.
+  intros H. destruct (check_params_facts C B A H) as (HC & HA & HB & Hov). unfold PoolLayout.max_overhead in Hov. rewrite addend_indep in Hov.
+  destruct (addend_facts A HA) as (Had & _ & _).
+  pose proof (Z.mod_pos_bound (B / A) 2 ltac:(lia)) as Hm2.
+  assert (0 <= (2 + (B / A) mod 2) * A <= 3 * A) as Hx by (split; [apply Z.mul_nonneg_nonneg; lia|apply Z.mul_le_mono_nonneg_r; lia]).
+  assert (0 <= C * B) as Hcb by (apply Z.mul_nonneg_nonneg; lia).
+  unfold Gen_MemPool.pvGetBufferSize, Gen_MemPool.pvGetBufferSize1. rewrite !addend_indep.
+  unfold Gen_MemPool.pvIsBufferBytesNear. change (wrapU 64 (2 + 1)) with 3. rewrite Z.geb_leb. change (wrapU 64 (2 * 8)) with 16.
+  rewrite (wrapU_small 64 (C * B)) by (rewrite two64; lia).
+  rewrite (wrapU_small 64 (C * B + addend A)) by (rewrite two64; lia).
+  rewrite (wrapU_small 64 (2 + (B / A) mod 2)) by (rewrite two64; lia).
+  rewrite (wrapU_small 64 ((2 + (B / A) mod 2) * A)) by (rewrite two64; lia).
+  rewrite (wrapU_small 64 (C * B + addend A + (2 + (B / A) mod 2) * A)) by (rewrite two64; lia).
+  assert (B <= C * B) as HBC by (rewrite <- (Z.mul_1_l B) at 1; apply Z.mul_le_mono_nonneg_r; lia).
+  assert (B + addend A + 2 <= 18446744073709551615) as H1 by lia.
+  rewrite (wrapU_small 64 (B + addend A)) by (rewrite two64; lia). rewrite (wrapU_small 64 (B + addend A + 2)) by (rewrite two64; lia).
+  rewrite two64.
+  destruct (Z.leb_spec 3 A).
+  - rewrite (wrapU_small 64 (C * B + addend A + (2 + (B / A) mod 2) * A + 0)) by (rewrite two64; lia).
+    rewrite (wrapU_small 64 (C * B + addend A + (2 + (B / A) mod 2) * A + 0 + 16)) by (rewrite two64; lia).
+    rewrite wrapU_small by (rewrite two64; lia). repeat split; lia.
+  - rewrite (wrapU_small 64 (C * B + addend A + (2 + (B / A) mod 2) * A + 2)) by (rewrite two64; lia).
+    rewrite (wrapU_small 64 (C * B + addend A + (2 + (B / A) mod 2) * A + 2 + 16)) by (rewrite two64; lia).
+    rewrite wrapU_small by (rewrite two64; lia). repeat split; lia.
+Qed.
+
+(* the check as it was BEFORE the fix accepted a size whose buffer size wraps (blockCount 127, alignment 1) *)
+Definition check_params_prefix (C B A : Z) : bool :=
+  Gen_MemPoolConst.CheckBlockCount C && Gen_MemPoolConst.CheckBlockAlignment A && (0 <? B)
+  && ((C =? 1) || (B mod A =? 0)) && ((C =? 1) || (2 <=? B / A)) && negb (B >? 18446744073709551615 / C).
+Lemma check_params_prefix_refuted :
+  exists C B A, check_params_prefix C B A = true /\ Gen_MemPool.pvGetBufferSize C B A < C * B.
+Proof. exists 127, 145249953336295682, 1. vm_compute. split; reflexivity. Qed.
